@@ -18,7 +18,7 @@ use oal_compiler::spec::Spec;
 use oal_compiler::tree::Tree;
 use oal_model::{locator::Locator, span::Span};
 use std::collections::hash_map::Entry;
-use std::collections::HashMap;
+use std::collections::{HashMap, HashSet};
 use unicode::{position_to_utf8, utf8_range_to_position};
 
 /// A folder in the workspace.
@@ -85,6 +85,8 @@ pub type Diagnostics = HashMap<Locator, Vec<Diagnostic>>;
 pub struct Workspace {
     docs: HashMap<Locator, String>,
     errors: Option<Vec<(Span, String)>>,
+    /// The documents for which diagnostics are currently published.
+    published: HashSet<Locator>,
 }
 
 impl Workspace {
@@ -188,10 +190,12 @@ impl Workspace {
     /// Returns the diagnostics from the accumulated errors.
     /// Reset the workspace errors.
     pub fn diagnostics(&mut self) -> anyhow::Result<Diagnostics> {
-        // Make sure diagnostics are reset on all previously opened documents.
+        // Make sure diagnostics are reset on all previously opened documents
+        // and on all documents with published diagnostics, even if closed since.
         let mut diags = self
             .docs
             .keys()
+            .chain(self.published.iter())
             .map(|loc| (loc.clone(), Default::default()))
             .collect::<Diagnostics>();
         let errs = self.errors.take().unwrap_or_default();
@@ -207,6 +211,11 @@ impl Workspace {
                 }
             }
         }
+        self.published = diags
+            .iter()
+            .filter(|(_, d)| !d.is_empty())
+            .map(|(loc, _)| loc.clone())
+            .collect();
         Ok(diags)
     }
 
